@@ -209,10 +209,10 @@ def run_css(ctx):
             'event; distinct by string. SCALE (%s): 12 stylesheet families (rules nested deeper than 1000 with and without '
             'declarations, unclosed nesting, stray block ends, thousands of declarations / rules / value items, parentheses '
             'nested deeper than 1000 balanced and unbalanced, comment / string / word tokens of thousands of characters, '
-            'unclosed comment, unclosed string ending in backslashes) with size drawn from 1100/1700/2600%s, positions sampled '
+            'unclosed comment, unclosed string ending in backslashes) with size drawn from 1100/1500/2100%s, positions sampled '
             '(-1..2, the middle, len-2..len+1, 3 random), judged by the oracle only (the extracted model needs minutes '
-            'there); 7 value families of the same sizes for split_value through oracle and model. The implementation runs '
-            'under CPython\'s default recursion limit %d.' % (n_ex, 'on' if SCALE else 'OFF', '' if quick else '/6000/15000',
+            'there); 7 value families of sizes 1100/2100 (thorough also 5000) for split_value through oracle and model. The implementation runs '
+            'under CPython\'s default recursion limit %d.' % (n_ex, 'on' if SCALE else 'OFF', '' if quick else '/5000',
                                                             USER_RECURSION_LIMIT))
     ctx.cov['rule'] = (ctx.cov['rule'] + ' || ' if ctx.cov.get('rule') else '') + rule
     state = {'failures': [], 'dis': 0, 'strings': 0}
